@@ -261,7 +261,9 @@ def run_uvalue(prop, tier, replay=None):
         winc = [c for c in cases if c["kind"] == "win"]
         if quick and payload is None:
             # quick: every corner case (frame fraction 0 or 1, unresolved glazing or frame) and 1 in 12 of the rest
-            corner = lambda c: c["w"]["ff"] in (0, 100) and (c["w"]["glass"] != "ok" or c["w"]["frame"] != "ok")
+            corner = lambda c: (c["w"]["ff"] in (0, 100) and (c["w"]["glass"] != "ok" or c["w"]["frame"] != "ok")) or \
+                (c["w"]["g"] in (0, 100) and c["w"]["ff"] == 20 and c["w"]["du"] == 10 and c["w"]["ug"] == 110 and c["w"]["uf"] == 320) or \
+                (c["w"]["gsh"] in (0, 100) and c["w"]["ff"] == 20 and c["w"]["du"] == 10 and c["w"]["ug"] == 110 and c["w"]["uf"] == 320)
             winc = [c for i, c in enumerate(winc) if corner(c) or (i * 7 + seed()) % 12 == 0]
         reqs, meta = [], []
         discarded = 0
